@@ -91,6 +91,13 @@ CLAIMED.update({
          CONN_NOTE + " Trusted additionally: the harness's binary encoders and the canonical rendering of decoded Go values.",
          "TLA+ spec (PgCopyBin) + TLC model checking of the reader algorithm over all scenarios + replay of each scenario "
          "on the real reader + TLC trace validation of the returned rows", "4 C14"),
+ "C09": ("TLC enumerates every row shape of the bounded model (value / untyped nil / nil pointer / invalid nullable / empty "
+         "per cell, every admissible result-format list, both protocols) and checks arity and NULL/empty marking; the "
+         "harness substitutes 13 column types with boundary and random values, runs each conversation on the real server, "
+         "decodes every field with its own text/binary decoders in the announced format, and TLC compares canonical "
+         "renderings, field counts, -1 for NULLs and 0 for empties.",
+         CONN_NOTE + " Value fidelity rests on the harness's independent decoders (the honest limit stated in DESIGN 4 C09).",
+         CONN_TECH, "4 C09"),
 })
 NOT_YET = "machinery for this property is not built yet in this revision (planned, see DESIGN.md section 4)"
 
